@@ -1,10 +1,25 @@
-(* C18 — the CURRENT remove_samples under a driver whose removal suspends before it takes effect (asyncpg-style): the
-   port's cache is invalidated BEFORE the removal, so a by-timestamp query that runs in between caches a pre-deletion
-   answer into the fresh dict and every later query gets the deleted sample.  Not reachable with the drivers whose remove
-   has no suspension point (JSON, Redis, MongoDB drivers are synchronous inside); candidate repair:
-   fixes/C18-invalidate-after-removal.diff.  Built with the rest, never part of a verdict. *)
+(* C18 — remove_samples BEFORE 6506e34 ("invalidate the by-timestamp cache again after the samples were removed") under a
+   driver whose removal suspends before it takes effect (asyncpg-style): the port's cache was invalidated only BEFORE the
+   removal, so a by-timestamp query that ran in between cached a pre-deletion answer into the fresh dict and every later
+   query got the deleted sample.  [ifinish_old] is Interleave.ifinish without the second invalidation.
+   Built with the rest, never part of a verdict. *)
 From QT Require Import C18.Spec C18.Interleave.
 Open Scope Z_scope.
+
+Definition ifinish_old (cfg : config) (s : istate) (id : Z) : istate * response :=
+  match fly_get (i_fly s) id with
+  | Some (FDelete p from to true) => (with_fly s (fly_drop (i_fly s) id), RDone)
+  | _ => ifinish cfg s id
+  end.
+
+Definition istep_old (cfg : config) (s : istate) (e : ievent) : istate * response :=
+  match e with IFinish id => ifinish_old cfg s id | _ => istep cfg s e end.
+
+Fixpoint irun_old (cfg : config) (s : istate) (es : list ievent) : istate * list response :=
+  match es with
+  | [] => (s, [])
+  | e :: rest => let '(s1, o) := istep_old cfg s e in let '(s2, os) := irun_old cfg s1 rest in (s2, o :: os)
+  end.
 
 Definition cfg_r : config := {| cfg_ports := [(1, (KNum, false))]; cfg_min_age := 3600000; cfg_real_ms := 1546304400000 |}.
 Definition st_r : state :=
@@ -14,15 +29,17 @@ Definition byts (l : list Z) : query :=
 Definition del (f t : Z) : query := {| q_from := QInt f; q_to := QInt t; q_limit := QAbsent; q_timestamps := None |}.
 
 (* DELETE starts (cache popped) and suspends before the removal; a by-timestamp query runs from start to end; the removal
-   happens; the DELETE answers; the same query asked afterwards, alone, still gets the deleted sample (10, should be 6) *)
+   happens; the DELETE answers; nothing is in flight any more, the schedule is admissible, and the same query asked alone
+   still gets the deleted sample (10, should be 6).  With the second invalidation the answer is right
+   (Props/C18.v, C18_overlap_nonvacuous, same schedule). *)
 Lemma C18_delete_race_refuted :
   exists cfg st0 es p q k tss,
-    st_cache st0 = [] /\ sched_okb cfg (istate_of st0) es = false /\
-    let s := fst (irun cfg (istate_of st0) es) in
+    st_cache st0 = [] /\ sched_okb cfg (istate_of st0) es = true /\
+    let s := fst (irun_old cfg (istate_of st0) es) in
     i_fly s = [] /\
     abstract cfg (st_now (i_st s)) (ApiGet p q) = AByTimestamp p k tss
-    /\ snd (istep cfg s (ISeq (ApiGet p q))) <> REntries (by_timestamp_spec (st_store (i_st s)) p k tss)
-    /\ snd (istep cfg s (ISeq (ApiGet p q))) = REntries [Some (2500, VNum 10)]
+    /\ snd (istep_old cfg s (ISeq (ApiGet p q))) <> REntries (by_timestamp_spec (st_store (i_st s)) p k tss)
+    /\ snd (istep_old cfg s (ISeq (ApiGet p q))) = REntries [Some (2500, VNum 10)]
     /\ by_timestamp_spec (st_store (i_st s)) p k tss = [Some (2500, VNum 6)].
 Proof.
   exists cfg_r, st_r,
